@@ -114,11 +114,15 @@ def parse_one(data, pos):
     head = data[p:he]  # without the terminating CRLFCRLF
     it.head_end = he + 4
     lines = head.split(b"\r\n")
-    # ---- bare CR / LF: in a field line it is one of the enumerated refusal classes; in the
-    #      start-line it is the request-line gate's business (C10) -> GRAY here
+    # ---- bare CR / LF: in a field line it is one of the enumerated refusal classes.  In or in front of the start-line a bare LF
+    #      is left open (RFC 9112 2.2 lets a recipient take a lone LF for a line terminator; the exact gate is C10's), but a bare CR
+    #      is not: "a recipient of such a bare CR MUST consider that element to be invalid or replace each bare CR with SP", and
+    #      either way no request-line results - no RFC 9112 parser extracts a message from it
     start_line = lines[0]
     if any(b"\r" in ln or b"\n" in ln for ln in lines[1:]):
         it.refuse("bare-cr-lf")
+    if b"\r" in start_line:
+        it.refuse("bare-cr-in-start-line")
     _start_line(it, start_line)
     # ---- field lines, obs-fold
     raw_fields = []
